@@ -95,6 +95,12 @@ class Actor(BackgroundService, abc.ABC):
                 raise
             except Exception:  # pylint: disable=broad-except
                 _logger.exception("Actor %s: Raised an unhandled exception.", self)
+                # If the actor was cancelled (or is being stopped), it must not be
+                # restarted, even if `_run()` raised some other exception while
+                # handling the cancellation.
+                if (task := asyncio.current_task()) is not None and task.cancelling():
+                    _logger.info("Actor %s: Cancelled, not restarting.", self)
+                    raise
                 limit_str = "∞" if self._restart_limit is None else self._restart_limit
                 limit_str = f"({n_restarts}/{limit_str})"
                 if self._restart_limit is None or n_restarts < self._restart_limit:
